@@ -1,6 +1,6 @@
 (* C07 - faithful model of the byte-string literal readers of /repo/src/pest_bridge.rs:
-     clean_prefixed_byte_string (2837-2853), hex_decode (2786-2796), base64_decode (2807-2832) and the slicing in
-     convert_bytes_value_to_type2 (2856-2925).
+     clean_prefixed_byte_string, hex_decode, base64_decode and the slicing in convert_bytes_value_to_type2
+     (as of commit 951a310: only the grammar's whitespace is ignored, padding before the end is rejected).
    data_encoding 2.11 (HEXLOWER_PERMISSIVE, BASE64, BASE64_NOPAD, BASE64URL, BASE64URL_NOPAD) is an external
    library; its decode_len / decode_mut are written out here as executable definitions following its lib.rs
    (decode_block: x |= value << (bit * order), output (x >> (8 * order)) & 0xff; decode_base_mut: symbols then
@@ -12,13 +12,15 @@ From Cddl Require Import Base.Bytes Lit.IntLit Lit.TextLit.
 Open Scope N_scope.
 
 (* ---------- clean_prefixed_byte_string ---------- *)
+(* matches!(c, ' ' | '\t' | '\r' | '\n'): the WHITESPACE of cddl.pest (since 320d006; before that c.is_whitespace()) *)
+Definition is_grammar_ws (c : N) : bool := (c =? 32) || (c =? 9) || (c =? 13) || (c =? 10).
 Fixpoint clean_st (in_comment : bool) (s : list N) : list N :=
   match s with
   | [] => []
   | c :: r =>
     if in_comment then (if c =? 10 then clean_st false r else clean_st true r)    (* skip through '\n' *)
     else if c =? 59 then clean_st true r                                          (* ';' *)
-    else if is_rust_ws c then clean_st false r                                    (* c.is_whitespace() *)
+    else if is_grammar_ws c then clean_st false r
     else c :: clean_st false r
   end.
 Definition clean_prefixed_byte_string (s : list N) : list N := clean_st false s.
@@ -125,11 +127,25 @@ Definition hex_decode (s : list N) : option (list N) :=
   if all_ascii s then hex_pairs s else None.
 
 (* ---------- base64_decode ---------- *)
+(* if let Some(first_pad) = input.iter().position(|&b| b == b'=') { if input[first_pad..].iter().any(|&b| b != b'=') { Err } }
+   (since 951a310) *)
+Fixpoint from_first_pad (s : list N) : option (list N) :=
+  match s with
+  | [] => None
+  | c :: r => if c =? 61 then Some s else from_first_pad r
+  end.
+Definition pad_not_at_end (s : list N) : bool :=
+  match from_first_pad s with
+  | Some suffix => existsb (fun b => negb (b =? 61)) suffix
+  | None => false
+  end.
+
 Definition base64_decode (s : list N) : option (list N) :=
   if negb (all_ascii s) then None else
   let uses_classic := contains 43 s || contains 47 s in
   let uses_url := contains 45 s || contains 95 s in
   if uses_classic && uses_url then None
+  else if pad_not_at_end s then None
   else
     match uses_classic, contains 61 s with
     | true, true => decode_pad (b64_value false) s          (* BASE64 *)
